@@ -2,7 +2,8 @@
    (build/coq/C09/Site.v) from
      sktime/forecasting/base/_meta.py            _fit_forecasters, _predict_forecasters
      sktime/forecasting/compose/_ensemble.py     fit / update / _predict (aggregation dispatch)
-     sktime/forecasting/compose/_pipeline.py     _iter_transformers / fit / _predict / update /
+     sktime/forecasting/compose/_pipeline.py     fit / _predict / update (iteration over the steps, through the private generator
+                                                 _iter_transformers or directly) /
                                                  transform / inverse_transform
      sktime/forecasting/compose/_multiplexer.py  _check_selected_forecaster / _set_forecaster /
                                                  fit / update / _predict
@@ -68,7 +69,7 @@ Proof. reflexivity. Qed.
 
 Lemma own_update b y : gen_own_update_y_X base mem B_set_y B_set_cutoff b y = base_upd b y.
 Proof.
-  unfold gen_own_update_y_X, gen_own_set_cutoff, base_upd. destruct y as [|p y]; [reflexivity|].
+  unfold gen_own_update_y_X, base_upd. destruct y as [|p y]; [reflexivity|].
   (* whichever way the source writes "the batch is (not) empty": decide the test, the impossible
      branch goes by arithmetic *)
   match goal with |- context [if ?c then _ else _] =>
@@ -195,10 +196,6 @@ Section Bridge.
 
   (* ================================================================ TransformedTargetForecaster *)
 
-  Theorem bridge_iter_transformers (A : Type) (l : list A) :
-    gen_iter_transformers leaf lpar tr tpar tfit tupd tapp tinv tskip thasupd reg rpar rfit rpred A false l = l /\ gen_iter_transformers leaf lpar tr tpar tfit tupd tapp tinv tskip thasupd reg rpar rfit rpred A true l = rev l.
-  Proof. split; reflexivity. Qed.
-
   Definition perm3 {A B C} (x : A * B * C) : C * B * A := let '(a, b, c) := x in (c, b, a).
 
   (* body of the fit loop: clone, fit_transform the RUNNING series, store the fitted clone back *)
@@ -209,7 +206,6 @@ Section Bridge.
   Theorem bridge_pipe_fit ts f0 y fh : G_pipe_fit ts f0 y fh = fit' (Pipe' ts f0) y fh.
   Proof.
     unfold G_pipe_fit, gen_pipe_fit. cbv zeta. rewrite own_fit.
-    change (gen_iter_transformers leaf lpar tr tpar tfit tupd tapp tinv tskip thasupd reg rpar rfit rpred (Z * tr) false ts) with ts.
     pose (a0 := (([] : list tstateT), y, ([] : trace))).
     change (([] : trace), y, ([] : list tstateT)) with (perm3 a0).
     rewrite (fold_left_conj perm3 fit_step' _ bridge_pipe_fit_body).
@@ -236,7 +232,6 @@ Section Bridge.
   Proof.
     unfold G_pipe_predict, gen_pipe_predict. cbv zeta. cbn [predict].
     destruct (predict' f) as [yp tc].
-    change (gen_iter_transformers leaf lpar tr tpar tfit tupd tapp tinv tskip thasupd reg rpar rfit rpred tstateT true ts) with (rev ts).
     change ([] ++ tc) with tc. rewrite <- (app_nil_r tc) at 1.
     rewrite bridge_pipe_inv_fold. unfold inv_chain.
     destruct (fold_left inv_step' (rev ts) (yp, [])) as [yq tc2]. reflexivity.
@@ -261,7 +256,6 @@ Section Bridge.
       let E := fresh "E" in destruct c eqn:E; try (exfalso; cbn [length] in E; lia) end.
     assert (Hy : p0 :: y0 <> []) by discriminate. revert Hy. generalize (p0 :: y0). intros y Hy.
     rewrite (update_pipe_nonempty leaf lpar lfit tr tpar tupd tapp thasupd reg rpar b ts f y up Hy).
-    change (gen_iter_transformers leaf lpar tr tpar tfit tupd tapp tinv tskip thasupd reg rpar rfit rpred tstateT false ts) with ts.
     pose (a0 := (([] : list tstateT), y, ([] : trace))).
     change (([] : trace), y, ([] : list tstateT)) with (perm3 a0).
     rewrite (fold_left_conj perm3 (upd_step' up) _ (bridge_pipe_update_body up)).
@@ -286,7 +280,6 @@ Section Bridge.
   Theorem bridge_pipe_transform ts z : fst (G_pipe_transform ts z) = fwd' ts z.
   Proof.
     unfold G_pipe_transform, gen_pipe_transform. cbv zeta.
-    change (gen_iter_transformers leaf lpar tr tpar tfit tupd tapp tinv tskip thasupd reg rpar rfit rpred tstateT false ts) with ts.
     match goal with |- fst (let '(_, _) := ?X in _) = _ => transitivity (snd X) end;
       [|apply bridge_pipe_transform_fold].
     destruct (fold_left _ _ _). reflexivity.
@@ -314,7 +307,6 @@ Section Bridge.
     fst (G_pipe_inverse_transform ts z) = inv_all ts z.
   Proof.
     unfold G_pipe_inverse_transform, gen_pipe_inverse_transform. cbv zeta.
-    change (gen_iter_transformers leaf lpar tr tpar tfit tupd tapp tinv tskip thasupd reg rpar rfit rpred tstateT true ts) with (rev ts).
     match goal with |- fst (let '(_, _) := ?X in _) = _ => transitivity (snd X) end;
       [|apply bridge_pipe_inverse_fold].
     destruct (fold_left _ _ _). reflexivity.
